@@ -5,6 +5,9 @@
 
 mod engine;
 mod c03;
+mod c04;
+mod c05;
+mod c06;
 mod subj;
 mod sweep_parse;
 
@@ -28,7 +31,7 @@ pub struct PropDef {
 }
 
 fn registry() -> Vec<PropDef> {
-    vec![sweep_parse::c01(), sweep_parse::c02(), c03::def()]
+    vec![sweep_parse::c01(), sweep_parse::c02(), c03::def(), c04::def(), c05::def(), c06::def()]
 }
 
 fn find(id: &str) -> PropDef {
